@@ -447,7 +447,7 @@ impl Prop for MapModel {
         "one case = one map<K,int> or set<K> and <= 80 operations (insert, m[k]=v, get, m[k], try_get, contains, remove, len) with keys from a pool of one domain (small ints, boundary ints incl. MIN/MAX and multiples of the bucket counts, strings, (int,string) tuples, a struct with hash = k % 2, arrays); get/m[k] only for keys the model holds; every result, the length after each mutation and a final lookup of every pool key are compared with a BTreeMap/BTreeSet; non-trivial = the sequence doubles the bucket array at least once, inserts into an occupied bucket and reuses a freed slot; distinct by the sequence"
     }
     fn n_cases(&self, tier: Tier) -> u32 {
-        tier.pick(1200, 12000)
+        tier.pick(2000, 20000)
     }
     fn strategy(&self, _tier: Tier, _f: &Findings) -> BoxedStrategy<Self::Case> {
         proptest::collection::vec(case_strategy(), 1..=16).boxed()
